@@ -56,8 +56,31 @@ class ProbeRecorder(RF.AbstractRecorder):
     index_to = property(lambda self: self.xt)
 
 
+class LazyRecorder(RF.AbstractRecorder):
+    """A user-written recorder that keeps the reported batches as they are handed over and only
+    concatenates them when asked (what is reported must stay what it was when it was reported)."""
+
+    def __init__(self):
+        super().__init__()
+        self.batches_v, self.batches_i = [], []
+
+    def record_values(self, values_from, values_to):
+        self.batches_v.append((values_from, values_to))
+
+    def record_index(self, index_from, index_to):
+        self.batches_i.append((index_from, index_to))
+
+    def _cat(self, batches, k):
+        return [float(x) for b in batches for x in np.asarray(b[k]).reshape(-1)]
+
+    values_from = property(lambda self: self._cat(self.batches_v, 0))
+    values_to = property(lambda self: self._cat(self.batches_v, 1))
+    index_from = property(lambda self: self._cat(self.batches_i, 0))
+    index_to = property(lambda self: self._cat(self.batches_i, 1))
+
+
 DETS = {"tp": RF.ThreePointDetector, "fp": RF.FourPointDetector, "fkm": RF.FKMDetector}
-RECS = {"full": RF.FullRecorder, "value": RF.LoopValueRecorder, "probe": ProbeRecorder}
+RECS = {"full": RF.FullRecorder, "value": RF.LoopValueRecorder, "probe": ProbeRecorder, "lazy": LazyRecorder}
 
 
 # ------------------------------------------------------------------ source
@@ -110,6 +133,17 @@ SEGS = [_seg_walk, _seg_walk, _seg_zigzag, _seg_monotone, _seg_extremes, _seg_fl
 
 def gen_signal(rng, min_len=1, max_len=80):
     r = rng.random()
+    if max_len == 80 and rng.random() < 0.0006:
+        # thousands of tiny unequal chunks (chunk book-keeping over a long streaming session)
+        n_big = rng.choice([9000, 12000])
+        sig = [float(rng.randint(-9, 9)) for _ in range(n_big)]
+        return sig
+    if max_len == 80 and rng.random() < 0.0006:
+        # a hold time of tens of thousands of samples at an extreme, in the middle of an ordinary signal
+        head = [float(rng.randint(-5, 5)) for _ in range(rng.randint(3, 12))]
+        peak = max(head) + 3.0 if rng.random() < 0.5 else min(head) - 3.0
+        tail = [float(rng.randint(-5, 5)) for _ in range(rng.randint(3, 12))]
+        return head + [peak] * rng.choice([17000, 33000, 40000]) + tail
     if max_len == 80 and rng.random() < 0.0007:
         # very rarely a really long recording (block sizes, 16-bit counters): held levels everywhere
         n_big = rng.choice([66000, 70000, 132000])
@@ -231,9 +265,20 @@ def gen_cuts(rng, sig):
     n = len(sig)
     if n < 2:
         return []
+    if 8000 < n < 13000 and rng.random() < 0.7:
+        # streamed in thousands of chunks of 1-4 samples
+        cuts, pos = [], 0
+        while True:
+            pos += rng.randint(1, 4)
+            if pos >= n:
+                break
+            cuts.append(pos)
+        return cuts
     if n > 5000:
         # a really long recording: a handful of big blocks, some borders next to powers of two
         cuts = {rng.randint(1, n - 1) for _ in range(rng.randint(1, 4))}
+        if rng.random() < 0.5:
+            cuts |= set(range(4096, n, 4096))           # regular big blocks as well
         for base in (1 << 15, 1 << 16, 1 << 17):
             if base < n - 2 and rng.random() < 0.5:
                 cuts.add(base + rng.choice([-1, 0, 1, 2]))
@@ -307,7 +352,7 @@ def observe(d, det, rec):
         if det != "fkm":
             o["ridx"] = [float(x) for x in d.residual_index]
             o["chunks"] = [int(x) for x in r.chunks]
-            if rec in ("full", "probe"):
+            if rec in ("full", "probe", "lazy"):
                 o["ifrom"] = [float(x) for x in r.index_from]
                 o["ito"] = [float(x) for x in r.index_to]
         if rec == "probe":
@@ -365,7 +410,7 @@ def generate(prop, rng, tier):
     reps = []
     for _ in range(n_rep):
         det = rng.choice(["tp", "fp", "fkm"])
-        reps.append({"det": det, "rec": rng.choice(["full", "full", "value", "probe"]),
+        reps.append({"det": det, "rec": rng.choice(["full", "full", "value", "probe", "lazy"]),
                      "cuts": gen_cuts(rng, sig),
                      "container": rng.choice(["ndarray", "ndarray", "ndarray", "list", "series", "strided", "readonly", "int", "int", "f32"])})
     order = []
@@ -474,12 +519,17 @@ def _execute(prop, trace):
         out.count("container:" + cont)
         st["delivered"].append(sig[a:b])
         det, rec = rp["det"], rp["rec"]
-        flush = final_flush and last and det == "fkm"
+        flush = final_flush and last
         out.steps += 1
+        nb = len(st["bounds"]) - 1
+        thin = n > 150 and not last and (st["k"] % max(1, nb // 8)) != 0     # long signals: a subset of the borders plus the end
         try:
             _feed(st["d"], chunk, flush)
             if scribble and cont == "ndarray":
                 chunk[:] = 1e30       # the caller re-uses its buffer (probe, see below)
+            if thin:
+                out.count("probe:border_checks_thinned")
+                continue
             o = observe(st["d"], det, rec)
         except RealCodeError as e:
             out.violate("exception", "%s/%s" % (det, e.where), {"replica": r, "consumed": b, "type": e.exc_type, "msg": e.msg})
@@ -489,7 +539,7 @@ def _execute(prop, trace):
         if last or st["k"] == 1:
             # the user may look at the collective at any time (also early): it must agree with the arrays
             try:
-                bad = collective_consistent(st["d"], o, rec) if rec != "probe" and (det != "fkm" or rec == "value") else None
+                bad = collective_consistent(st["d"], o, rec) if rec not in ("probe", "lazy") and (det != "fkm" or rec == "value") else None
             except RealCodeError as e:
                 out.violate("exception", "%s/%s" % (det, e.where), {"replica": r, "consumed": b, "type": e.exc_type, "msg": e.msg})
                 st["dead"] = True
@@ -502,11 +552,7 @@ def _execute(prop, trace):
             out.count("probe:collective_read")
         if b < n:
             out.count("border:" + border_kind(b, sig, runs, kinds, rev, run_of))
-        nb = len(st["bounds"]) - 1
-        thin = n > 150 and not last and (st["k"] % max(1, nb // 8)) != 0     # long signals: a subset of the borders plus the end
-        if thin:
-            out.count("probe:border_checks_thinned")
-        elif prop == "C01":
+        if prop == "C01":
             check_c01(out, st, rp, r, sig[:b], o, flush)
         else:
             check_c02_accounting(out, st, rp, r, sig[:b], o)
@@ -578,7 +624,7 @@ def check_c01(out, st, rp, r, prefix, o, flush):
     for L in lens:
         offs.append(offs[-1] + L)
     pairs = [("ridx", "res")]
-    if rec in ("full", "probe"):
+    if rec in ("full", "probe", "lazy"):
         pairs += [("ifrom", "from"), ("ito", "to")]
     for ik, vk in pairs:
         gi = o[ik]
@@ -620,7 +666,7 @@ def check_c02_accounting(out, st, rp, r, prefix, o):
             st["dead"] = True
         return
     tp = ref.turning_points(prefix)
-    if rec in ("full", "probe"):
+    if rec in ("full", "probe", "lazy"):
         want = Counter((float(i), v) for i, v in tp)
         got = Counter(zip(o["ifrom"], o["from"])) + Counter(zip(o["ito"], o["to"])) + Counter(zip(o["ridx"], o["res"]))
         for (i, v) in got:
@@ -1086,7 +1132,7 @@ def describe(prop):
                          "is compared with a fresh detector fed the consumed prefix in one piece (I1) and the chunk bookkeeping is mapped back to the delivered chunks (I2). "
                          "distinct_nontrivial counts distinct (detector, recorder, set of border kinds, chunk-count bucket, signal features, residual depth) among replicas with >=2 chunks and >=1 recorded cycle."),
                 "assumptions": ["float64 ndarray chunks (the kernels accept nothing else)", "one-piece replica of the working tree is the reference for I1 (C02 checks it against an independent definition)",
-                                "final flush=True is exercised for the FKM detector only (3-/4-point flush semantics are outside C01)",
+                                "in 25% of the runs the last chunk is fed with flush=True, and so is the one-piece reference",
                                 "in 30% of runs the delivered ndarray buffer is overwritten after process() has returned (a streaming reader re-using one buffer); a divergence that needs the overwrite is reported with component '<detector>:buffer-reuse'"],
                 "required_probes": ["border:before-turn", "border:after-turn", "border:in-rev-plateau", "border:in-slope-plateau", "border:monotone",
                                     "probe:three_or_more_chunks", "I2-indices-mapped"]}
